@@ -161,7 +161,7 @@ func (fr *Frame) exec(ins ssa.Instruction, st *State, rch Term) {
 		vc.assume(sx("<", "0", v.C[0]))
 		fr.vals[x] = v
 	case *ssa.MakeMap:
-		fr.vals[x] = fr.makeMap(x, st)
+		fr.vals[x] = fr.makeMap(x, st, rch)
 	case *ssa.MapUpdate:
 		fr.mapUpdate(x, st, rch)
 	case *ssa.Range:
